@@ -434,3 +434,683 @@ fn c01_tcpa_server_checksum_without_builder_calls() {
     check_table("TCPA server (new)", &b);
     assert_eq!(le16_at(&b, 36), 1, "platform class = server");
 }
+
+// =======================================================================================
+// Generic per-property oracles (run after an obligation of the named module failed / could not
+// be checked; bounded: they validate, they never prove)
+// =======================================================================================
+fn le64_at(b: &[u8], o: usize) -> u64 { u64::from_le_bytes(b[o..o + 8].try_into().unwrap()) }
+const U64S: [u64; 10] = [0, 1, 0xff, 0x100, 0xffff_ffff, 0x1_0000_0000, 0x0fff_ffff_ffff_ffff, 0x1000_0000_0000_0000, 0x8000_0000_0000_0000, u64::MAX];
+const U32S: [u32; 8] = [0, 1, 0xff, 0x100, 0xffff, 0x1_0000, 0x8000_0000, u32::MAX];
+
+// ---- C17: accumulator against a wide-integer reference
+#[test]
+fn c17_checksum_accumulator_reference() {
+    use acpi_tables::Checksum;
+    for s in 0..=255u8 {
+        for b in [0u8, 1, 2, 0x7f, 0x80, 0xfe, 0xff, s] {
+            let mut c = Checksum::default();
+            c.add(s);
+            assert_eq!(c.raw_value(), s);
+            c.add(b);
+            assert_eq!(c.raw_value() as u32, (s as u32 + b as u32) % 256, "add");
+            c.sub(b);
+            assert_eq!(c.raw_value(), s, "sub undoes add");
+            c.sub(b);
+            assert_eq!(c.raw_value() as i32, (s as i32 - b as i32).rem_euclid(256), "sub");
+            assert_eq!((c.raw_value() as u32 + c.value() as u32) % 256, 0, "value()");
+        }
+    }
+    for len in [0usize, 1, 2, 255, 256, 257, 515, 516, 517, 1024, 4099, 70000] {
+        for fill in [0u8, 1, 0x80, 0xff] {
+            let data: Vec<u8> = (0..len).map(|i| if i % 3 == 0 { fill } else { fill.wrapping_add(i as u8) }).collect();
+            let want = data.iter().fold(0u64, |a, x| a + *x as u64);
+            let mut c = Checksum::default();
+            c.add(7);
+            c.append(&data);
+            assert_eq!(c.raw_value() as u64, (7 + want) % 256, "append len {} fill {}", len, fill);
+            let mut d = Checksum::default();
+            d.add(7);
+            {
+                let s: &mut dyn AmlSink = &mut d;
+                s.vec(&data);
+            }
+            assert_eq!(d.raw_value(), c.raw_value(), "sink == append");
+            c.delete(&data);
+            assert_eq!(c.raw_value(), 7, "delete undoes append len {} fill {}", len, fill);
+        }
+    }
+}
+
+// ---- C08: integers
+fn ref_int(v: u64) -> Vec<u8> {
+    match v {
+        0 => vec![0x00],
+        1 => vec![0x01],
+        2..=0xff => vec![0x0a, v as u8],
+        0x100..=0xffff => { let mut r = vec![0x0b]; r.extend_from_slice(&(v as u16).to_le_bytes()); r }
+        0x1_0000..=0xffff_ffff => { let mut r = vec![0x0c]; r.extend_from_slice(&(v as u32).to_le_bytes()); r }
+        _ => { let mut r = vec![0x0e]; r.extend_from_slice(&v.to_le_bytes()); r }
+    }
+}
+#[test]
+fn c08_integer_encodings_reference() {
+    for v in 0..=0xffffu32 {
+        let w = ref_int(v as u64);
+        assert_eq!(ser(&(v as u16)), w, "u16 {}", v);
+        assert_eq!(ser(&v), w, "u32 {}", v);
+        assert_eq!(ser(&(v as u64)), w, "u64 {}", v);
+        assert_eq!(ser(&(v as usize)), w, "usize {}", v);
+        if v <= 0xff { assert_eq!(ser(&(v as u8)), w, "u8 {}", v); }
+    }
+    for base in [0x1_0000u64, 0xffff_ffff, 0x1_0000_0000, u64::MAX - 2, 1 << 31, 1 << 32, 1 << 63] {
+        for d in 0..5u64 {
+            let v = base.wrapping_add(d).wrapping_sub(2);
+            let w = ref_int(v);
+            assert_eq!(ser(&v), w, "u64 {:#x}", v);
+            assert_eq!(ser(&(v as usize)), w, "usize {:#x}", v);
+            if v <= u32::MAX as u64 { assert_eq!(ser(&(v as u32)), w, "u32 {:#x}", v); }
+        }
+    }
+}
+
+// ---- C09: name paths
+fn ref_name(rooted: bool, segs: &[String]) -> Vec<u8> {
+    let mut r = Vec::new();
+    if rooted { r.push(b'\\'); }
+    match segs.len() { 1 => {}, 2 => r.push(0x2e), n => { r.push(0x2f); r.push(n as u8); } }
+    for s in segs { r.extend_from_slice(s.as_bytes()); }
+    r
+}
+#[test]
+fn c09_name_paths_reference() {
+    for n in (1..=12usize).chain([100, 254, 255]) {
+        for rooted in [false, true] {
+            let segs: Vec<String> = (0..n).map(|i| format!("{}{:03}", ['A', '_', 'Z', 'M'][i % 4], i % 1000)).collect();
+            let s = format!("{}{}", if rooted { "\\" } else { "" }, segs.join("."));
+            assert_eq!(ser(&Path::new(&s)), ref_name(rooted, &segs), "path {:?}", s);
+        }
+    }
+    for n in 1..=5usize {
+        for pos in 0..n {
+            for badlen in [0usize, 1, 2, 3, 5, 6, 7, 8] {
+                for rooted in [false, true] {
+                    let segs: Vec<String> = (0..n).map(|i| if i == pos { "X".repeat(badlen) } else { format!("S{:03}", i) }).collect();
+                    let s = format!("{}{}", if rooted { "\\" } else { "" }, segs.join("."));
+                    let r = catch_unwind(AssertUnwindSafe(|| ser(&Path::new(&s))));
+                    assert!(r.is_err(), "malformed path {:?} was accepted: {:02x?}", s, r.ok());
+                }
+            }
+        }
+    }
+}
+
+// ---- C07 / C15 / C06: PkgLength framing through public objects at every width boundary
+#[test]
+fn c07_pkg_length_framing_at_boundaries() {
+    let sizes: Vec<usize> = (0..=130).chain(4080..=4110).chain((1 << 20) - 12..(1 << 20) + 6).collect();
+    for n in sizes {
+        // Scope::raw: path (4 bytes) + n child bytes
+        let raw = Scope::raw("_SB_".into(), vec![0xa3u8; n]);
+        assert_eq!(raw[0], 0x10);
+        let (len, w) = pkg_decode(&raw[1..]);
+        assert_eq!(len, raw.len() - 1, "Scope::raw content {}: PkgLength decodes to {}, object spans {}", n + 4, len, raw.len() - 1);
+        let minimal = if len <= 63 { 1 } else if len <= 4095 { 2 } else if len <= (1 << 20) - 1 { 3 } else { 4 };
+        assert_eq!(w, minimal, "Scope::raw content {}: PkgLength width", n + 4);
+        if w > 1 { assert_eq!(raw[1] & 0x30, 0, "reserved bits"); }
+        // same object through Scope::new
+        let filler = Raw(vec![0xa3u8; n]);
+        let viaobj = ser(&Scope::new("_SB_".into(), vec![&filler]));
+        assert_eq!(viaobj, raw, "Scope::new vs Scope::raw at content {}", n + 4);
+        // BufferData: size integer + data
+        if n < 5000 {
+            let b = ser(&BufferData::new(vec![0x5au8; n]));
+            assert_eq!(b[0], 0x11);
+            let (len, w) = pkg_decode(&b[1..]);
+            assert_eq!(len, b.len() - 1, "BufferData {}", n);
+            assert_eq!(&b[1 + w..1 + w + ref_int(n as u64).len()], &ref_int(n as u64)[..], "BufferData size {}", n);
+        }
+    }
+}
+#[test]
+fn c15_package_builder_equals_package() {
+    for n in 0..=200usize {
+        let els: Vec<u32> = (0..n).map(|i| [0u32, 1, 0xff, 0x100, 0x12345, 0xffff_ffff][i % 6]).collect();
+        let refs: Vec<&dyn Aml> = els.iter().map(|e| e as &dyn Aml).collect();
+        let mut pb = PackageBuilder::new();
+        for e in &els { pb.add_element(e); }
+        assert_eq!(ser(&pb), ser(&Package::new(refs)), "{} elements", n);
+    }
+    let s = "a string";
+    assert_eq!(ser(&s), ser(&s.to_string()));
+}
+
+// ---- C10: resource descriptors and templates
+#[test]
+fn c10_resource_templates_reference() {
+    for n in (0..=40usize).chain([5461, 5462, 7281, 7282]) {
+        let ios: Vec<IO> = (0..n).map(|i| IO::new(0x100 + i as u16, 0x3f8 + 257 * (i as u16 % 7), 8, 4)).collect();
+        let mems: Vec<Memory32Fixed> = (0..n % 3).map(|i| Memory32Fixed::new(i % 2 == 0, 0x8000_0000 + i as u32, 0xffff_fff0)).collect();
+        let mut kids: Vec<&dyn Aml> = ios.iter().map(|e| e as &dyn Aml).collect();
+        for m in &mems { kids.push(m); }
+        let b = ser(&ResourceTemplate::new(kids));
+        assert_eq!(b[0], 0x11);
+        let (len, w) = pkg_decode(&b[1..]);
+        assert_eq!(len, b.len() - 1, "template of {} descriptors: PkgLength", n);
+        let payload_len = 8 * n + 12 * (n % 3) + 2;
+        let size = ref_int(payload_len as u64);
+        assert_eq!(&b[1 + w..1 + w + size.len()], &size[..], "template of {} descriptors: buffer size", n);
+        let mut o = 1 + w + size.len();
+        assert_eq!(b.len() - o, payload_len);
+        for i in 0..n {
+            assert_eq!(b[o], 0x47); assert_eq!(b[o + 1], 1);
+            assert_eq!(le16_at(&b, o + 2), 0x100 + i as u16, "IO min");
+            assert_eq!(le16_at(&b, o + 4), 0x3f8 + 257 * (i as u16 % 7), "IO max");
+            assert_eq!(b[o + 6], 8); assert_eq!(b[o + 7], 4);
+            o += 8;
+        }
+        for i in 0..n % 3 {
+            assert_eq!(b[o], 0x86); assert_eq!(le16_at(&b, o + 1), 9);
+            assert_eq!(b[o + 3], (i % 2 == 0) as u8);
+            assert_eq!(le32_at(&b, o + 4), 0x8000_0000 + i as u32);
+            assert_eq!(le32_at(&b, o + 8), 0xffff_fff0);
+            o += 12;
+        }
+        assert_eq!(&b[o..], &[0x79, 0x00]);
+    }
+    let b = ser(&Interrupt::new(true, false, true, false, 0x1234_5678));
+    assert_eq!(b, vec![0x89, 6, 0, 0b0101, 1, 0x78, 0x56, 0x34, 0x12]);
+    let b = ser(&AddressSpace::<u64>::new_memory(AddressSpaceCacheable::PreFetchable, true, 0x1_0000_0000, 0x1_ffff_ffff, Some(5)));
+    assert_eq!(b[0], 0x8a); assert_eq!(le16_at(&b, 1) as usize, b.len() - 3); assert_eq!(b[3], 0); assert_eq!(b[4], 0x0c); assert_eq!(b[5], 7);
+    assert_eq!(le64_at(&b, 14), 0x1_0000_0000); assert_eq!(le64_at(&b, 22), 0x1_ffff_ffff); assert_eq!(le64_at(&b, 30), 5); assert_eq!(le64_at(&b, 38), 0x1_0000_0000);
+    let b = ser(&AddressSpace::<u16>::new_bus_number(0, 0xfe));
+    assert_eq!(b, vec![0x88, 13, 0, 2, 0x0c, 0, 0, 0, 0, 0, 0xfe, 0, 0, 0, 0xff, 0]);
+}
+
+// ---- C16: EISA ids and UUIDs
+#[test]
+fn c16_eisa_and_uuid_reference() {
+    let hexd = b"0123456789ABCDEF";
+    for (i, l) in (b'A'..=b'Z').enumerate() {
+        for d in 0..16usize {
+            let id = [l, b'A' + ((i * 7 + d) % 26) as u8, b'Z' - (d as u8 % 26), hexd[d], hexd[(d * 3 + i) % 16], hexd[15 - d], hexd[(d + i) % 16]];
+            let s = std::str::from_utf8(&id).unwrap();
+            let b = ser(&EISAName::new(s));
+            assert_eq!(b[0], 0x0c, "EISA id {} encodes as a DWord", s);
+            let v = u32::from_le_bytes([b[1], b[2], b[3], b[4]]).swap_bytes();
+            let back = [0x40 + ((v >> 26) & 0x1f) as u8, 0x40 + ((v >> 21) & 0x1f) as u8, 0x40 + ((v >> 16) & 0x1f) as u8,
+                        hexd[((v >> 12) & 0xf) as usize], hexd[((v >> 8) & 0xf) as usize], hexd[((v >> 4) & 0xf) as usize], hexd[(v & 0xf) as usize]];
+            assert_eq!(back, id, "EISA id {} decompresses to {:?}", s, std::str::from_utf8(&back));
+        }
+    }
+    let u = "33DB4D5B-1FF7-401C-9657-7441C03DD766";
+    let want = [0x5b, 0x4d, 0xdb, 0x33, 0xf7, 0x1f, 0x1c, 0x40, 0x96, 0x57, 0x74, 0x41, 0xc0, 0x3d, 0xd7, 0x66];
+    for s in [u.to_string(), u.to_lowercase()] {
+        let b = ser(&Uuid::new(&s));
+        assert_eq!(&b[b.len() - 16..], &want[..], "ToUUID({})", s);
+    }
+    for pos in 0..36usize {
+        for bad in ['g', '+', ' ', '-', 'x'] {
+            let mut cs: Vec<char> = u.chars().collect();
+            if cs[pos] == bad { continue; }
+            cs[pos] = bad;
+            let s: String = cs.into_iter().collect();
+            let r = catch_unwind(AssertUnwindSafe(|| ser(&Uuid::new(&s))));
+            assert!(r.is_err(), "malformed UUID {:?} was accepted", s);
+        }
+    }
+    for s in ["", "PNP", "PNP0A0", "PNP0A033", "pnp0a03"] {
+        if s.len() == 7 { continue; }
+        assert!(catch_unwind(AssertUnwindSafe(|| EISAName::new(s))).is_err(), "EISA id {:?} accepted", s);
+    }
+}
+
+// ---- C13 / C14: generic table against a vector model, through every entry point
+fn model_fix(v: &mut Vec<u8>) { v[9] = 0; let s = bsum(v); v[9] = 0u8.wrapping_sub(s); }
+#[test]
+fn c13_generic_table_vector_model() {
+    use acpi_tables::sdt::Sdt;
+    for init in [36u32, 37, 38, 40, 255, 256] {
+        let mut t = Sdt::new(*b"TEST", init, 1, *b"FOOBAR", *b"DECAFCOF", 7);
+        let mut m = t.as_slice().to_vec();
+        assert_eq!(m.len(), init as usize);
+        check_table("Sdt(new)", &m);
+        let mut step = 0u32;
+        let mut app = |t: &mut Sdt, m: &mut Vec<u8>, d: &[u8], how: u8| {
+            match how {
+                0 => t.append_slice(d),
+                1 => { let s: &mut dyn AmlSink = t; s.vec(d) }
+                _ => { for b in d { let s: &mut dyn AmlSink = t; s.byte(*b) } }
+            }
+            m.extend_from_slice(d);
+            let l = m.len() as u32;
+            m[4..8].copy_from_slice(&l.to_le_bytes());
+            model_fix(m);
+        };
+        for round in 0..40u32 {
+            let d: Vec<u8> = (0..(round % 9)).map(|i| (round * 37 + i * 11) as u8).collect();
+            app(&mut t, &mut m, &d, (round % 3) as u8);
+            assert_eq!(t.as_slice(), &m[..], "init {} after append #{} ({} bytes, entry point {})", init, round, d.len(), round % 3);
+            assert_eq!(bsum(t.as_slice()), 0, "Sdt sums to 0");
+            // typed appends and in-range writes
+            t.append(round as u8); m.push(round as u8); let l = m.len() as u32; m[4..8].copy_from_slice(&l.to_le_bytes()); model_fix(&mut m);
+            t.append(0xa1b2u16 ^ round as u16); m.extend_from_slice(&(0xa1b2u16 ^ round as u16).to_le_bytes()); let l = m.len() as u32; m[4..8].copy_from_slice(&l.to_le_bytes()); model_fix(&mut m);
+            assert_eq!(t.as_slice(), &m[..], "typed appends");
+            let off = (round as usize * 5) % (m.len() - 8);
+            t.write_u32(off, 0xdead_0000 | round); m[off..off + 4].copy_from_slice(&(0xdead_0000u32 | round).to_le_bytes()); model_fix(&mut m);
+            t.write_u8(m.len() - 1, 0x5a); let e = m.len() - 1; m[e] = 0x5a; model_fix(&mut m);
+            assert_eq!(t.as_slice(), &m[..], "writes (offset {})", off);
+            assert_eq!(bsum(t.as_slice()), 0, "Sdt after writes sums to 0");
+            t.append_slice(&[]); let l = m.len() as u32; m[4..8].copy_from_slice(&l.to_le_bytes()); model_fix(&mut m);
+            assert_eq!(t.as_slice(), &m[..], "empty append restores Length");
+            step += 1;
+        }
+        let before = t.as_slice().to_vec();
+        let n = t.len();
+        assert!(catch_unwind(AssertUnwindSafe(|| { let mut c = Sdt::new(*b"TEST", 40, 1, *b"FOOBAR", *b"DECAFCOF", 7); c.write_u32(37, 1); c })).is_err(), "write past the end accepted");
+        assert_eq!(t.as_slice(), &before[..]); assert_eq!(t.len(), n); let _ = step;
+    }
+}
+struct ByteOnly(Vec<u8>);
+impl AmlSink for ByteOnly { fn byte(&mut self, b: u8) { self.0.push(b) } }
+#[test]
+fn c14_sinks_agree() {
+    use acpi_tables::{madt, srat, u8sum};
+    let a = madt::Gicc::new(madt::EnabledStatus::Enabled).mpidr(0x8000_0001).overflow_interrupt(7);
+    let b = srat::MemoryAffinity::new(3, u64::MAX, 0x1234).enabled();
+    let m = Method::new("MTH0".into(), 2, true, vec![&0x1234_5678u32, &"str"]);
+    let objs: Vec<&dyn Aml> = vec![&a, &b, &m];
+    for o in objs {
+        let v = ser(o);
+        let mut s = ByteOnly(Vec::new());
+        o.to_aml_bytes(&mut s);
+        assert_eq!(s.0, v, "byte-only sink");
+        assert_eq!(ser(o), v, "repeatable");
+        assert_eq!(u8sum(o), bsum(&v), "u8sum");
+        let mut pb = PackageBuilder::new();
+        pb.add_element(o);
+        let p = ser(&pb);
+        assert_eq!(&p[p.len() - v.len()..], &v[..], "package-builder sink");
+    }
+}
+
+// =======================================================================================
+// Table oracles: histories (C01/C02), walks (C03), decoding (C04), handles (C05), options (C11)
+// =======================================================================================
+const OEM: [u8; 6] = *b"FOOBAR";
+const TBL: [u8; 8] = *b"DECAFCOF";
+
+#[test]
+fn c01_table_histories_checksum_and_length() {
+    use acpi_tables::*;
+    let mut t = xsdt::XSDT::new(OEM, TBL, 1);
+    check_table("XSDT(new)", &ser(&t));
+    for i in 0..300u64 { t.add_entry(0x1000 * i + (i << 40)); check_table("XSDT", &ser(&t)); }
+    let mut t = mcfg::MCFG::new(OEM, TBL, 1);
+    check_table("MCFG(new)", &ser(&t));
+    for i in 0..300u64 { t.add_ecam(i << 28, i as u16, 0, (i % 256) as u8); check_table("MCFG", &ser(&t)); }
+    let mut t = madt::MADT::new(OEM, TBL, 1, madt::LocalInterruptController::Address(0xfee0_0000));
+    check_table("MADT(new)", &ser(&t));
+    for i in 0..300u32 {
+        match i % 4 {
+            0 => t.add_structure(madt::ProcessorLocalApic::new(i as u8, i as u8, madt::EnabledStatus::Enabled)),
+            1 => t.add_structure(madt::Gicc::new(madt::EnabledStatus::DisabledOnlineCapable).mpidr(i as u64)),
+            2 => t.add_structure(madt::RINTC::new(madt::HartStatus::Enabled, i as u64, i, 0, 0, 0)),
+            _ => t.add_structure(madt::IoApic::new(i as u8, 0xfec0_0000, i)),
+        }
+        check_table("MADT", &ser(&t));
+    }
+    let mut t = srat::SRAT::new(OEM, TBL, 1);
+    check_table("SRAT(new)", &ser(&t));
+    for i in 0..300u32 {
+        match i % 3 {
+            0 => t.add_memory_affinity(srat::MemoryAffinity::new(i, (i as u64) << 36, u64::MAX - i as u64).enabled()),
+            1 => t.add_generic_initiator(srat::GenericInitiator::new(i, srat::Handle::new_pci(i as u16, i as u8, (i % 32) as u8, (i % 8) as u8)).enabled()),
+            _ => t.add_rintc_affinity(srat::RintcAffinity::new([i as u8, 2, 3, 4], i)),
+        }
+        check_table("SRAT", &ser(&t));
+    }
+    let mut t = pptt::PPTT::new(OEM, TBL, 1);
+    check_table("PPTT(new)", &ser(&t));
+    for i in 0..300u32 {
+        let c = t.add_cache(pptt::CacheNodeBuilder::default().size(i).to_node());
+        check_table("PPTT", &ser(&t));
+        t.add_processor(pptt::ProcessorNode::new(None, i).add_cache(&c).valid());
+        check_table("PPTT", &ser(&t));
+    }
+    let mut t = rhct::RHCT::new(OEM, TBL, 1, 10_000_000);
+    check_table("RHCT(new)", &ser(&t));
+    let strings: [&'static str; 4] = ["rv64imafdc", "rv64i", "x", "rv64imafdch_zicbom"];
+    for i in 0..300u32 {
+        match i % 4 {
+            0 => { t.add_isa_string(strings[(i / 4) as usize % 4]); }
+            1 => { t.add_cmo(rhct::CmoNode::new(6, 6, 6)); }
+            2 => t.add_mmu_node(rhct::VirtualAddressScheme::Sv48),
+            _ => { let h = t.add_isa_string("rv64"); let c = t.add_cmo(rhct::CmoNode::new(1, 2, 3)); t.add_hart_info(rhct::HartInfoNode::new(i, &h).with_cmo(&c)); }
+        }
+        let b = ser(&t);
+        check_table("RHCT", &b);
+    }
+    let mut t = cedt::CEDT::new(OEM, TBL, 1);
+    check_table("CEDT(new)", &ser(&t));
+    for i in 0..300u32 {
+        match i % 4 {
+            0 => t.add_host_bridge(cedt::CxlHostBridge::new(i, cedt::CxlVersion::Cxl2, (i as u64) << 20)),
+            1 => t.add_port_association(cedt::PortAssociation::new(i as u16, i as u8, (i % 32) as u8, (i % 8) as u8, cedt::ProtocolType::CxlIo, i as u64)),
+            2 => { let mut x = cedt::XorInterleaveMath::new(cedt::InterleaveGranularity::Granularity4kb); for k in 0..(i % 5) { x.add_xormap(k as u64); } t.add_xor_interleave_math(x) }
+            _ => { let mut f = cedt::CxlFixedMemory::new(0, 1 << 28, cedt::InterleaveArithmetic::Modulo, cedt::InterleaveGranularity::Granularity256b, cedt::InterleaveWays::Ways2, 1).volatile(); f.add_target(*b"CPU0"); f.add_target(*b"CPU1"); t.add_fixed_memory(f) }
+        }
+        check_table("CEDT", &ser(&t));
+    }
+    let mut t = hmat::HMAT::new(OEM, TBL, 1);
+    check_table("HMAT(new)", &ser(&t));
+    for i in 0..40u32 {
+        t.add_memory_proximity(hmat::MemoryProximityDomain::new(i, i + 1));
+        check_table("HMAT", &ser(&t));
+        let mut s = hmat::SystemLocality::new(hmat::LocalityType::Memory, hmat::DataType::ReadBandwidth, hmat::MinTransferSize::Size64b, 10, (i % 3 + 1) as usize, (i % 2 + 1) as usize);
+        s.set_entry_value(0, 0, i as u16);
+        t.add_system_locality(s);
+        check_table("HMAT", &ser(&t));
+        let mut c = hmat::MemorySideCache::new(i, 1 << 20, hmat::CacheLevel::Two, hmat::CacheLevel::One, hmat::Associativity::Complex, hmat::WritePolicy::Writethrough, 64);
+        for k in 0..(i % 4) { c.add_smbios_handle(k as u16); }
+        t.add_memory_side_cache(c);
+        check_table("HMAT", &ser(&t));
+    }
+    let mut t = tpm2::Tpm2::new(OEM, TBL, 1, tpm2::PlatformClass::Server, 0xfed4_0000, tpm2::StartMethod::Crb);
+    check_table("TPM2(new)", &ser(&t));
+    t.set_log_area(0x1_0000, 0x8000_0000_0000);
+    check_table("TPM2(log area)", &ser(&t));
+    check_table("TCPA client", &ser(&tpm2::TpmClient1_2::new(OEM, TBL, 1, 0xffff_0001, u64::MAX)));
+    let s = tpm2::TpmServer1_2::new(OEM, TBL, 1);
+    check_table("TCPA server", &ser(&s));
+    let s = s.log_area(1, 2); check_table("TCPA server", &ser(&s));
+    let s = s.active_low().edge_triggered().sci_gpe(3).gsi(4).bus_is_pnp().pci_sbdf(1, 2, 3, 4); check_table("TCPA server", &ser(&s));
+    check_table("BERT", &ser(&bert::BERT::new(OEM, TBL, 1, 0x1000, u64::MAX)));
+    let f = fadt::FADTBuilder::new(OEM, TBL, 1).dsdt_64(0xabcd_0000_1111).firmware_ctrl_32(7).flag(fadt::Flags::HwReducedAcpi).preferred_pm_profile(fadt::PmProfile::Tablet).finalize();
+    check_table("FADT", &ser(&f));
+    let r = ser(&rsdp::Rsdp::new(OEM, 0x1234_5678_9abc));
+    assert_eq!(r.len(), 36); assert_eq!(bsum(&r[..20]), 0, "RSDP first 20 bytes"); assert_eq!(bsum(&r), 0, "RSDP all 36 bytes"); assert_eq!(le32_at(&r, 20), 36);
+    assert_eq!(le32_at(&ser(&facs::FACS::new()), 4), 64);
+    check_table("SPCR", &ser(&spcr::SPCR::sbi(OEM, TBL, 1)));
+    let mut q = rqsc::RQSC::new(OEM, TBL, 1);
+    check_table("RQSC(new)", &ser(&q));
+    for i in 0..20u32 {
+        let mut c = rqsc::QoSController::new(rqsc::ControllerType::Capacity, gas::GAS::new(gas::AddressSpace::SystemMemory, 64, 0, gas::AccessSize::QwordAccess, 0x1000), i, i, 1);
+        for k in 0..(i % 3) { c.add_resource(rqsc::ResourceStructure::new(rqsc::ResourceType::Cache, 0, rqsc::ResourceID::Cache(rqsc::CacheResource::new(k)))); }
+        q.add_controller(c);
+        check_table("RQSC", &ser(&q));
+    }
+}
+
+/// generic walker: `hdr` = entry header length, `len_at`/`len_w` = where the length field lives
+fn walk(name: &str, b: &[u8], first: usize, len_at: usize, len_w: usize, min: usize) -> Vec<(usize, usize)> {
+    let mut o = first;
+    let mut v = Vec::new();
+    while o < b.len() {
+        assert!(o + len_at + len_w <= b.len(), "{}: truncated entry at {}", name, o);
+        let l = match len_w { 1 => b[o + len_at] as usize, 2 => le16_at(b, o + len_at) as usize, _ => le32_at(b, o + len_at) as usize };
+        assert!(l >= min && o + l <= b.len(), "{}: entry at {} has length {} but the image ends at {}", name, o, l, b.len());
+        v.push((o, l));
+        o += l;
+    }
+    assert_eq!(o, b.len(), "{}: walk did not land on the end", name);
+    v
+}
+#[test]
+fn c03_table_bodies_are_tiled() {
+    use acpi_tables::*;
+    let mut t = rhct::RHCT::new(OEM, TBL, 1, 1);
+    let mut want = Vec::new();
+    let strs: [&'static str; 5] = ["rv64", "rv64i", "x", "", "rv64imafdch"];
+    for i in 0..12u32 {
+        let h = t.add_isa_string(strs[i as usize % 5]); want.push(0u16);
+        let c = t.add_cmo(rhct::CmoNode::new(1, 2, 3)); want.push(1);
+        t.add_mmu_node(rhct::VirtualAddressScheme::Sv57); want.push(2);
+        let mut hi = rhct::HartInfoNode::new(i, &h); for _ in 0..(i % 3) { hi = hi.with_cmo(&c); }
+        t.add_hart_info(hi); want.push(65535);
+        let b = ser(&t);
+        assert_eq!(le32_at(&b, 52), 56, "RHCT node array offset");
+        let es = walk("RHCT", &b, 56, 2, 2, 8);
+        assert_eq!(le32_at(&b, 48) as usize, es.len(), "RHCT node count");
+        assert_eq!(es.iter().map(|(o, _)| le16_at(&b, *o)).collect::<Vec<_>>(), want, "RHCT node types in insertion order");
+        for (o, l) in &es {
+            if le16_at(&b, *o) == 0 { let sl = le16_at(&b, o + 6) as usize; assert!(8 + sl <= *l && *l <= 8 + sl + 1 && l % 2 == 0, "ISA node at {}: length {} vs string length {}", o, l, sl); assert_eq!(b[o + 8 + sl - 1], 0, "NUL"); }
+            if le16_at(&b, *o) == 65535 { assert_eq!(*l, 12 + 4 * le16_at(&b, o + 6) as usize, "hart info offsets"); }
+        }
+    }
+    let mut t = rimt::RIMT::new(OEM, TBL, 1);
+    let io = t.add_iommu(rimt::Iommu::new(1, Some(0x1000), None, Some(2), Some(vec![rimt::InterruptWire::new(1, true, false, 2)])));
+    t.add_platform(rimt::Platform::new(2, "dev".to_string(), Some(vec![rimt::IdMapping::new(1, 2, 3, io, true, false, true)])));
+    t.add_pcie_root_complex(rimt::PcieRootComplex::new(3, 0, true, true, None));
+    t.add_platform(rimt::Platform::new(4, "".to_string(), None));
+    let b = ser(&t);
+    check_table("RIMT", &b);
+    assert_eq!(le32_at(&b, 40), 48, "RIMT device offset");
+    let es = walk("RIMT", &b, 48, 2, 2, 4);
+    assert_eq!(le32_at(&b, 36) as usize, es.len(), "RIMT device count");
+    assert_eq!(es.iter().map(|(o, _)| b[*o]).collect::<Vec<_>>(), vec![0, 2, 1, 2]);
+    assert_eq!(le16_at(&b, es[0].0 + 28), 1, "wire count"); assert_eq!(le16_at(&b, es[0].0 + 30), 32, "wire offset"); assert_eq!(es[0].1, 40);
+    let p = es[1].0; assert_eq!(le16_at(&b, p + 8) as usize, 12 + 3 + 1, "platform id-mapping offset"); assert_eq!(le16_at(&b, p + 10), 1); assert_eq!(es[1].1, 16 + 20);
+    let mut t = viot::VIOT::new(OEM, TBL, 1);
+    let h = t.add_virtio_pci_iommu(viot::VirtIoPciIommu::new(viot::PciDevice::new(0, 1, 2, 3)));
+    t.add_pci_range(viot::PciRange::new(viot::PciDevice::new(0, 0, 0, 0), viot::PciDevice::new(0, 0xff, 31, 7), &h));
+    t.add_mmio_endpoint(viot::MmioEndpoint::new(9, 0x1000, &h));
+    t.add_virtio_mmio_iommu(viot::VirtIoMmioIommu::new(0x2000));
+    let b = ser(&t);
+    check_table("VIOT", &b);
+    assert_eq!(le16_at(&b, 38), 48, "VIOT node offset");
+    let es = walk("VIOT", &b, 48, 2, 2, 4);
+    assert_eq!(le16_at(&b, 36) as usize, es.len(), "VIOT node count");
+    assert_eq!(es.iter().map(|(o, _)| b[*o]).collect::<Vec<_>>(), vec![3, 1, 2, 4]);
+    let mut t = hmat::HMAT::new(OEM, TBL, 1);
+    t.add_memory_proximity(hmat::MemoryProximityDomain::new(1, 2));
+    t.add_system_locality(hmat::SystemLocality::new(hmat::LocalityType::Memory, hmat::DataType::AccessLatency, hmat::MinTransferSize::SizeByteAligned, 1, 2, 3));
+    let mut c = hmat::MemorySideCache::new(1, 2, hmat::CacheLevel::One, hmat::CacheLevel::One, hmat::Associativity::None, hmat::WritePolicy::None, 64); c.add_smbios_handle(1); c.add_smbios_handle(2); c.add_smbios_handle(3);
+    t.add_memory_side_cache(c);
+    let b = ser(&t);
+    check_table("HMAT", &b);
+    let es = walk("HMAT", &b, 40, 4, 4, 8);
+    assert_eq!(es.iter().map(|(o, _)| le16_at(&b, *o)).collect::<Vec<_>>(), vec![0, 1, 2]);
+    assert_eq!(es[1].1, 32 + 4 * 2 + 4 * 3 + 2 * 6); assert_eq!(le32_at(&b, es[1].0 + 12), 2); assert_eq!(le32_at(&b, es[1].0 + 16), 3);
+    assert_eq!(le16_at(&b, es[2].0 + 30), 3); assert_eq!(es[2].1, 32 + 6);
+    let mut t = pptt::PPTT::new(OEM, TBL, 1);
+    let c = t.add_cache(pptt::CacheNodeBuilder::default().size(1).to_node());
+    let p = t.add_processor(pptt::ProcessorNode::new(None, 1).add_cache(&c).add_cache(&c));
+    t.add_processor(pptt::ProcessorNode::new(Some(&p), 2));
+    let b = ser(&t);
+    check_table("PPTT", &b);
+    let es = walk("PPTT", &b, 36, 1, 1, 2);
+    assert_eq!(es.iter().map(|(o, l)| (b[*o], *l)).collect::<Vec<_>>(), vec![(1, 28), (0, 28), (0, 20)]);
+    assert_eq!(le32_at(&b, es[1].0 + 16), 2, "private resource count");
+    let mut t = hest::HEST::new(OEM, TBL, 1);
+    t.add_structure(hest::PcieAerRootPort::new_global()); t.add_structure(hest::PcieAerDevice::new_global()); t.add_structure(hest::PcieAerBridge::new_global());
+    t.add_structure(hest::GenericHardwareSource::new(1, hest::EnabledStatus::Enabled)); t.add_structure(hest::GenericHardwareSourceV2::new(2, hest::EnabledStatus::Disabled));
+    let b = ser(&t);
+    check_table("HEST", &b);
+    assert_eq!(le32_at(&b, 36), 5, "HEST source count");
+    let mut o = 40; let mut seen = Vec::new();
+    while o < b.len() { let ty = le16_at(&b, o); seen.push(ty); o += match ty { 6 => 48, 7 => 44, 8 => 56, 9 => 64, 10 => 92, _ => panic!("HEST: unknown type {} at {}", ty, o) }; }
+    assert_eq!(o, b.len(), "HEST walk by the specification's sizes"); assert_eq!(seen, vec![6, 7, 8, 9, 10]);
+    let mut t = slit::SLIT::new(OEM, TBL, 1, 3);
+    t.set_distance(0, 2, 33);
+    let b = ser(&t);
+    check_table("SLIT", &b); assert_eq!(le64_at(&b, 36), 3); assert_eq!(b.len(), 44 + 9);
+    let m = ser(&madt::MADT::new(OEM, TBL, 1, madt::LocalInterruptController::Riscv));
+    assert_eq!(m.len(), 44);
+}
+
+#[test]
+fn c04_entries_decode_to_the_callers_values() {
+    use acpi_tables::*;
+    for &a in &U64S { for &l in &[1u64, u64::MAX, 0x8000_0000_0000_0001] { for &pd in &U32S {
+        let b = ser(&srat::MemoryAffinity::new(pd, a, l).hotpluggable());
+        assert_eq!(b.len(), 40); assert_eq!((b[0], b[1]), (1, 40)); assert_eq!(le32_at(&b, 2), pd); assert_eq!(le16_at(&b, 6), 0);
+        assert_eq!(le64_at(&b, 8), a, "base address {:#x}", a); assert_eq!(le64_at(&b, 16), l, "length {:#x}", l);
+        assert_eq!(le32_at(&b, 24), 0); assert_eq!(le32_at(&b, 28), 2); assert_eq!(le64_at(&b, 32), 0);
+    } } }
+    let b = ser(&srat::GenericInitiator::new(0xdead_beef, srat::Handle::new_pci(0xabcd, 0xef, 31, 7)).architectural());
+    assert_eq!((b[0], b[1], b[2], b[3]), (5, 32, 0, 1)); assert_eq!(le32_at(&b, 4), 0xdead_beef); assert_eq!(le16_at(&b, 8), 0xabcd); assert_eq!(b[10], 0xef); assert_eq!(b[11], (31 << 3) | 7);
+    assert!(b[12..24].iter().all(|x| *x == 0)); assert_eq!(le32_at(&b, 24), 2); assert_eq!(le32_at(&b, 28), 0);
+    let b = ser(&srat::GenericInitiator::new(1, srat::Handle::new_acpi(*b"ACPI0001", [9, 8, 7, 6])));
+    assert_eq!(b[3], 0); assert_eq!(&b[8..16], b"ACPI0001"); assert_eq!(&b[16..20], &[9, 8, 7, 6]); assert_eq!(le32_at(&b, 20), 0);
+    let b = ser(&srat::RintcAffinity::new([1, 2, 3, 4], 0x5566_7788).proximity_domain(0x99aa_bbcc).enabled());
+    assert_eq!((b[0], b[1]), (7, 20)); assert_eq!(le32_at(&b, 4), 0x99aa_bbcc); assert_eq!(&b[8..12], &[1, 2, 3, 4]); assert_eq!(le32_at(&b, 12), 1); assert_eq!(le32_at(&b, 16), 0x5566_7788);
+    for &v in &U64S {
+        let b = ser(&viot::MmioEndpoint::new(v as u32, v, &{ let mut t = viot::VIOT::new(OEM, TBL, 1); t.add_virtio_mmio_iommu(viot::VirtIoMmioIommu::new(v)) }));
+        assert_eq!((b[0], b[1]), (2, 0)); assert_eq!(le16_at(&b, 2), 24); assert_eq!(le32_at(&b, 4), v as u32); assert_eq!(le64_at(&b, 8), v); assert_eq!(le16_at(&b, 16), 48); assert!(b[18..24].iter().all(|x| *x == 0));
+        let b = ser(&viot::VirtIoMmioIommu::new(v)); assert_eq!((b[0], b[1], le16_at(&b, 2), le32_at(&b, 4)), (4, 0, 16, 0)); assert_eq!(le64_at(&b, 8), v);
+        let b = ser(&cedt::CxlHostBridge::new(v as u32, cedt::CxlVersion::Cxl1_1, v)); assert_eq!(le32_at(&b, 4), v as u32); assert_eq!(le32_at(&b, 8), 0); assert_eq!(le32_at(&b, 12), 0); assert_eq!(le64_at(&b, 16), v); assert_eq!(le64_at(&b, 24), 0x2000);
+        let b = ser(&cedt::PortAssociation::new(v as u16, v as u8, (v % 32) as u8, (v % 8) as u8, cedt::ProtocolType::CxlMem, v));
+        assert_eq!(b[0], 3); assert_eq!(le16_at(&b, 2) as usize, b.len()); assert_eq!(le16_at(&b, 4), v as u16); assert_eq!(le16_at(&b, 6), ((v as u8 as u16) << 8) | (((v % 32) as u16) << 3) | (v % 8) as u16); assert_eq!(b[8], 1); assert_eq!(le64_at(&b, 9), v);
+        let mut f = cedt::CxlFixedMemory::new(v, !v, cedt::InterleaveArithmetic::ModuloXor, cedt::InterleaveGranularity::Granularity16kb, cedt::InterleaveWays::Ways3, v as u16).persistent();
+        f.add_target(*b"AAA0"); f.add_target(*b"BBB1"); f.add_target(*b"CCC2");
+        let b = ser(&f);
+        assert_eq!((b[0], b[1]), (1, 0)); assert_eq!(le16_at(&b, 2) as usize, b.len()); assert_eq!(b.len(), 36 + 12); assert_eq!(le32_at(&b, 4), 0); assert_eq!(le64_at(&b, 8), v); assert_eq!(le64_at(&b, 16), !v);
+        assert_eq!((b[24], b[25], le16_at(&b, 26), le32_at(&b, 28), le16_at(&b, 32), le16_at(&b, 34)), (8, 1, 0, 6, 8, v as u16)); assert_eq!(&b[36..], b"AAA0BBB1CCC2");
+        let b = ser(&rimt::Iommu::new(v as u16, Some(v), Some(rimt::PciDevice::new(v as u16, v as u8, 31, 7)), Some(v as u32), None));
+        assert_eq!((b[0], b[1], le16_at(&b, 2)), (0, 1, 32)); assert_eq!(le16_at(&b, 4), v as u16); assert_eq!(le16_at(&b, 6), 0); assert_eq!(le64_at(&b, 8), v); assert_eq!(le32_at(&b, 16), 3);
+        assert_eq!(le16_at(&b, 20), v as u16); assert_eq!(le16_at(&b, 22), ((v as u8 as u16) << 8) | (31 << 3) | 7); assert_eq!(le32_at(&b, 24), v as u32); assert_eq!(le16_at(&b, 28), 0); assert_eq!(le16_at(&b, 30), 32);
+        let mut s = hmat::SystemLocality::new(hmat::LocalityType::ThirdLevelCache, hmat::DataType::WriteBandwidth, hmat::MinTransferSize::Size64k, v, 2, 2);
+        s.set_initiator_value(1, v as u32); s.set_target_value(0, !v as u32); s.set_entry_value(1, 0, v as u16);
+        let b = ser(&s);
+        assert_eq!((le16_at(&b, 0), le16_at(&b, 2), b[8], b[9], b[10], b[11]), (1, 0, 3, 5, 11, 0)); assert_eq!(le64_at(&b, 24), v); assert_eq!(le32_at(&b, 36), v as u32); assert_eq!(le32_at(&b, 40), !v as u32); assert_eq!(le16_at(&b, 48 + 4), v as u16);
+        let b = ser(&xsdt_one(v)); assert_eq!(le64_at(&b, 36), v);
+    }
+    let mut t = mcfg::MCFG::new(OEM, TBL, 1); t.add_ecam(0xe000_0000_1234, 0xabcd, 3, 250);
+    let b = ser(&t); assert_eq!(le64_at(&b, 36), 0); assert_eq!(le64_at(&b, 44), 0xe000_0000_1234); assert_eq!(le16_at(&b, 52), 0xabcd); assert_eq!((b[54], b[55]), (3, 250)); assert_eq!(le32_at(&b, 56), 0);
+    let f = fadt::FADTBuilder::new(OEM, TBL, 9).dsdt_32(0x1111_2222).firmware_ctrl_64(0x3333_4444_5555).acpi_enable().gpe_info(1, 2, 3, 4, 5).finalize();
+    let b = ser(&f);
+    assert_eq!(&b[0..4], b"FACP"); assert_eq!(le32_at(&b, 4), 276); assert_eq!(b[8], 6); assert_eq!(le32_at(&b, 36), 0, "FIRMWARE_CTRL cleared by the 64-bit setter"); assert_eq!(le32_at(&b, 40), 0x1111_2222, "DSDT kept");
+    assert_eq!((b[52], b[53]), (1, 0)); assert_eq!((le32_at(&b, 80), le32_at(&b, 84), b[92], b[93], b[94]), (1, 2, 3, 4, 5)); assert_eq!(le64_at(&b, 132), 0x3333_4444_5555); assert_eq!(le64_at(&b, 140), 0);
+    let f = fadt::FADTBuilder::new(OEM, TBL, 9).firmware_ctrl_32(7).dsdt_64(0x9999_0000_0000).firmware_ctrl_32(8).finalize();
+    let b = ser(&f); assert_eq!(le32_at(&b, 36), 8); assert_eq!(le64_at(&b, 132), 0); assert_eq!(le32_at(&b, 40), 0); assert_eq!(le64_at(&b, 140), 0x9999_0000_0000);
+    let b = ser(&gas::GAS::new_pci_config(32, gas::AccessSize::DwordAccess, 31, 7, 0xfffc)); assert_eq!((b[0], b[1], b[2], b[3]), (2, 32, 0, 3)); assert_eq!(le64_at(&b, 4), (31u64 << 32) | (7 << 16) | 0xfffc);
+}
+fn xsdt_one(v: u64) -> acpi_tables::xsdt::XSDT { let mut t = acpi_tables::xsdt::XSDT::new(OEM, TBL, 1); t.add_entry(v); t }
+
+#[test]
+fn c05_handles_are_offsets_of_their_nodes() {
+    use acpi_tables::*;
+    let mut t = pptt::PPTT::new(OEM, TBL, 1);
+    let mut hs = Vec::new();
+    let c0 = t.add_cache(pptt::CacheNodeBuilder::default().size(1).to_node());
+    let c1 = t.add_cache(pptt::CacheNodeBuilder::default().size(2).next_level(&c0).to_node());
+    let p0 = t.add_processor(pptt::ProcessorNode::new(None, 10).add_cache(&c1));
+    let p1 = t.add_processor(pptt::ProcessorNode::new(Some(&p0), 11).add_cache(&c0).add_cache(&c1));
+    let c2 = t.add_cache(pptt::CacheNodeBuilder::default().size(3).next_level(&c1).to_node());
+    let p2 = t.add_processor(pptt::ProcessorNode::new(Some(&p1), 12).add_cache(&c2));
+    let _ = p2;
+    let b = ser(&t);
+    let es = walk("PPTT", &b, 36, 1, 1, 2);
+    let starts: Vec<usize> = es.iter().map(|(o, _)| *o).collect();
+    for (o, l) in &es {
+        if b[*o] == 0 {
+            let parent = le32_at(&b, o + 8) as usize;
+            if parent != 0 { assert!(starts.contains(&parent) && b[parent] == 0, "PPTT node at {}: parent {} is not the start of a processor node", o, parent); }
+            for k in 0..le32_at(&b, o + 16) as usize { let r = le32_at(&b, o + 20 + 4 * k) as usize; assert!(starts.contains(&r) && b[r] == 1, "PPTT node at {}: resource {} is not the start of a cache node", o, r); }
+            hs.push(*l);
+        } else { let nx = le32_at(&b, o + 8) as usize; if nx != 0 { assert!(starts.contains(&nx) && b[nx] == 1, "cache at {}: next level {}", o, nx); } }
+    }
+    let mut t = rhct::RHCT::new(OEM, TBL, 1, 1);
+    t.add_mmu_node(rhct::VirtualAddressScheme::Sv39);
+    let i0 = t.add_isa_string("rv64i");
+    t.add_hart_info(rhct::HartInfoNode::new(0, &i0));
+    let c0 = t.add_cmo(rhct::CmoNode::new(1, 1, 1));
+    let i1 = t.add_isa_string("rv64imafdc_zicbom_zicboz");
+    t.add_hart_info(rhct::HartInfoNode::new(1, &i1).with_cmo(&c0));
+    t.add_hart_info(rhct::HartInfoNode::new(2, &i0).with_cmo(&c0));
+    let b = ser(&t);
+    let es = walk("RHCT", &b, 56, 2, 2, 8);
+    let starts: Vec<usize> = es.iter().map(|(o, _)| *o).collect();
+    for (o, _) in &es { if le16_at(&b, *o) == 65535 { let n = le16_at(&b, o + 6) as usize; for k in 0..n { let r = le32_at(&b, o + 12 + 4 * k) as usize; assert!(starts.contains(&r), "hart info at {}: offset {} is not the start of a node", o, r); assert_eq!(le16_at(&b, r), if k == 0 { 0 } else { 1 }, "hart info at {}: offset {} has the wrong node type", o, r); } } }
+    let mut t = rimt::RIMT::new(OEM, TBL, 1);
+    t.add_platform(rimt::Platform::new(1, "a".to_string(), None));
+    let io0 = t.add_iommu(rimt::Iommu::new(1, None, None, None, Some(vec![rimt::InterruptWire::new(1, false, false, 0), rimt::InterruptWire::new(2, true, true, 1)])));
+    t.add_pcie_root_complex(rimt::PcieRootComplex::new(2, 0, false, false, Some(vec![rimt::IdMapping::new(0, 0, 1, io0, false, false, false)])));
+    t.add_platform(rimt::Platform::new(3, "longer name".to_string(), Some(vec![rimt::IdMapping::new(0, 0, 1, io0, false, false, false)])));
+    let io1 = t.add_iommu(rimt::Iommu::new(4, None, None, None, None));
+    t.add_platform(rimt::Platform::new(5, "x".to_string(), Some(vec![rimt::IdMapping::new(0, 0, 1, io1, false, false, false), rimt::IdMapping::new(1, 1, 1, io0, false, false, false)])));
+    let b = ser(&t);
+    let es = walk("RIMT", &b, 48, 2, 2, 4);
+    let starts: Vec<usize> = es.iter().map(|(o, _)| *o).collect();
+    for (o, _) in &es {
+        let (moff, n) = match b[*o] { 1 => (le16_at(&b, o + 12) as usize, le16_at(&b, o + 14) as usize), 2 => (le16_at(&b, o + 8) as usize, le16_at(&b, o + 10) as usize), _ => (0, 0) };
+        for k in 0..n { let r = le32_at(&b, o + moff + 20 * k + 12) as usize; assert!(starts.contains(&r) && b[r] == 0, "RIMT device at {}: id mapping {} references offset {} which is not the start of an IOMMU device", o, k, r); }
+    }
+    let mut t = viot::VIOT::new(OEM, TBL, 1);
+    t.add_mmio_endpoint(viot::MmioEndpoint::new(1, 2, &{ let mut x = viot::VIOT::new(OEM, TBL, 1); x.add_virtio_mmio_iommu(viot::VirtIoMmioIommu::new(0)) }));
+    let h0 = t.add_virtio_mmio_iommu(viot::VirtIoMmioIommu::new(0x1000));
+    t.add_pci_range(viot::PciRange::new(viot::PciDevice::new(0, 0, 0, 0), viot::PciDevice::new(0, 1, 0, 0), &h0));
+    t.add_mmio_endpoint(viot::MmioEndpoint::new(2, 3, &h0));
+    let h1 = t.add_virtio_pci_iommu(viot::VirtIoPciIommu::new(viot::PciDevice::new(0, 2, 0, 0)));
+    t.add_mmio_endpoint(viot::MmioEndpoint::new(3, 4, &h1));
+    t.add_pci_range(viot::PciRange::new(viot::PciDevice::new(1, 0, 0, 0), viot::PciDevice::new(1, 1, 0, 0), &h1));
+    let b = ser(&t);
+    let es = walk("VIOT", &b, 48, 2, 2, 4);
+    let starts: Vec<usize> = es.iter().map(|(o, _)| *o).collect();
+    for (i, (o, _)) in es.iter().enumerate() {
+        if i == 0 { continue; }
+        let out = match b[*o] { 1 => Some(le16_at(&b, o + 16) as usize), 2 => Some(le16_at(&b, o + 16) as usize), _ => None };
+        if let Some(r) = out { assert!(starts.contains(&r) && (b[r] == 3 || b[r] == 4), "VIOT node at {} references offset {} which is not the start of a translation node", o, r); }
+    }
+}
+
+#[test]
+fn c11_option_builders_are_independent() {
+    use acpi_tables::*;
+    // SRAT memory affinity: every subset, two orders, with repetition
+    for mask in 0..8u32 {
+        let apply = |order: &[u32]| { let mut m = srat::MemoryAffinity::new(1, 2, 3); for o in order { if mask & (1 << o) != 0 { m = match o { 0 => m.enabled(), 1 => m.hotpluggable(), _ => m.nonvolatile() }; } } le32_at(&ser(&m), 28) };
+        assert_eq!(apply(&[0, 1, 2]), mask); assert_eq!(apply(&[2, 1, 0, 1, 2]), mask);
+    }
+    // PPTT processor flags and cache attributes
+    for mask in 0..32u32 {
+        let mut n = pptt::ProcessorNode::new(None, 7);
+        for o in [4u32, 0, 3, 1, 2, 0] { if mask & (1 << o) != 0 { n = match o { 0 => n.physical(), 1 => n.valid(), 2 => n.thread(), 3 => n.leaf(), _ => n.identical() }; } }
+        let b = ser(&n); assert_eq!(le32_at(&b, 4), mask); assert_eq!(le32_at(&b, 12), 7);
+    }
+    use pptt::{AllocationType as A, CacheType as C, WritePolicy as W};
+    for (a, av) in [(A::Read, 0u8), (A::Write, 1), (A::Both, 2)] { for (c, cv) in [(C::Data, 0u8), (C::Instruction, 4), (C::Unified, 8)] { for (w, wv) in [(W::Writeback, 0u8), (W::Writethrough, 16)] {
+        let orders: [[u8; 3]; 3] = [[0, 1, 2], [2, 1, 0], [1, 2, 0]];
+        for ord in orders {
+            let mut bld = pptt::CacheNodeBuilder::default().size(0x1111).line_size(64);
+            for o in ord { bld = match o { 0 => bld.allocation_type(a), 1 => bld.cache_type(c), _ => bld.write_policy(w) }; }
+            let b = ser(&bld.sets(5).associativity(9).id(0x2222).to_node());
+            assert_eq!(b[21], av | cv | wv, "cache attributes for order {:?}", ord); assert_eq!(le32_at(&b, 4), 0xff, "all valid flags"); assert_eq!(le32_at(&b, 12), 0x1111); assert_eq!(le32_at(&b, 16), 5); assert_eq!(b[20], 9); assert_eq!(le16_at(&b, 22), 64); assert_eq!(le32_at(&b, 24), 0x2222);
+        }
+    } } }
+    let b = ser(&pptt::CacheNodeBuilder::default().cache_type(C::Unified).to_node()); assert_eq!(le32_at(&b, 4), 1 << 4); assert_eq!(b[21], 8);
+    // GICC
+    use madt::{EnabledStatus as E, Trigger as T};
+    for (s, f) in [(E::Disabled, 0u32), (E::Enabled, 1), (E::DisabledOnlineCapable, 8)] { for (pt, pf) in [(T::Level, 0u32), (T::Edge, 2)] { for (mt, mf) in [(T::Level, 0u32), (T::Edge, 4)] {
+        let b = ser(&madt::Gicc::new(s).maintenance_interrupt(11, mt).performance_interrupt(22, pt).mpidr(33));
+        assert_eq!(le32_at(&b, 12), f | pf | mf, "GICC flags"); assert_eq!(le32_at(&b, 20), 22); assert_eq!(le32_at(&b, 56), 11); assert_eq!(le64_at(&b, 68), 33); assert_eq!((b[0], b[1]), (0x0b, 82));
+    } } }
+    // TCPA server flags
+    for mask in 0..128u32 {
+        let mut s = tpm2::TpmServer1_2::new(OEM, TBL, 1);
+        for o in [6u32, 2, 0, 5, 1, 3, 4, 2] { if mask & (1 << o) != 0 { s = match o { 0 => s.edge_triggered(), 1 => s.active_low(), 2 => s.sci_gpe(9), 3 => s.gsi(0x55), 4 => s.pci_sbdf(1, 2, 3, 4), 5 => s.bus_is_pnp(), _ => s.config_addr(gas::GAS::new(gas::AddressSpace::SystemIo, 8, 0, gas::AccessSize::ByteAccess, 0x4e)) }; } }
+        let b = ser(&s);
+        check_table("TCPA server", &b);
+        assert_eq!(b[59] as u32, mask & 0xf, "interrupt flags for option set {:#b}", mask); assert_eq!(b[58] as u32, (mask >> 4) & 7, "device flags for option set {:#b}", mask);
+        assert_eq!(b[60], if mask & 4 != 0 { 9 } else { 0 }); assert_eq!(le32_at(&b, 64), if mask & 8 != 0 { 0x55 } else { 0 }); assert_eq!(&b[96..100], if mask & 16 != 0 { &[1u8, 2, 3, 4][..] } else { &[0u8, 0, 0, 0][..] });
+    }
+    // FADT flags
+    use fadt::Flags as F;
+    let all = [(F::Wbinvd, 0), (F::PwrButton, 4), (F::ResetRegSup, 10), (F::HwReducedAcpi, 20), (F::LowPowerS0IdleCapable, 21), (F::PersistentCpuCachesNotPersistent, 22), (F::PersistentCpuCachesArePersistent, 23)];
+    for i in 0..all.len() { for j in 0..all.len() {
+        let b = ser(&fadt::FADTBuilder::new(OEM, TBL, 1).flag(all[i].0).flag(all[j].0).flag(all[i].0).finalize());
+        assert_eq!(le32_at(&b, 112), (1u32 << all[i].1) | (1 << all[j].1), "FADT flags {:?} {:?}", all[i].0, all[j].0);
+    } }
+    // HMAT locality flags, CEDT restrictions (all subsets)
+    let mut s = hmat::SystemLocality::new(hmat::LocalityType::SecondLevelCache, hmat::DataType::AccessLatency, hmat::MinTransferSize::SizeByteAligned, 1, 1, 1);
+    assert_eq!(ser(&s)[8], 2); s.non_sequential_transfers(); assert_eq!(ser(&s)[8], 2 | 0x20); s.minimum_transfer_size_required(); s.non_sequential_transfers(); assert_eq!(ser(&s)[8], 2 | 0x30);
+    for mask in 0..32u16 {
+        let mut f = cedt::CxlFixedMemory::new(0, 1 << 28, cedt::InterleaveArithmetic::Modulo, cedt::InterleaveGranularity::Granularity256b, cedt::InterleaveWays::Ways1, 0);
+        for o in [3u16, 0, 4, 1, 2, 3] { if mask & (1 << o) != 0 { f = match o { 0 => f.cxl_type_2_memory(), 1 => f.cxl_type_3_memory(), 2 => f.volatile(), 3 => f.persistent(), _ => f.fixed_configuration() }; } }
+        f.add_target(*b"CPU0");
+        assert_eq!(le16_at(&ser(&f), 32), mask, "CFMWS restrictions");
+    }
+    let b = ser(&madt::ProcessorLocalApic::new(1, 2, E::DisabledOnlineCapable)); assert_eq!(le32_at(&b, 4), 2);
+    let b = ser(&rimt::IdMapping::new(1, 2, 3, { let mut t = rimt::RIMT::new(OEM, TBL, 1); t.add_iommu(rimt::Iommu::new(0, None, None, None, None)) }, true, false, true)); assert_eq!(le32_at(&b, 16), 5); assert_eq!(le32_at(&b, 12), 48);
+}
